@@ -84,7 +84,7 @@ Definition r_missing : root := MkRoot false false UseSession (leaf 1 POk).
 Definition r_good : root := MkRoot true false UseSession crate_ok.
 Definition r_bad : root := MkRoot true false (LocalOk cfg_ok) crate_bad.
 Definition r_cfgerr : root := MkRoot true false LocalErr (leaf 3 POk).
-Example three_roots_no_abort : existsb aborts [r_bad; r_missing; r_good] = false.
+Example three_roots_no_abort : existsb (aborts cfg_ok) [r_bad; r_missing; r_good] = false.
 Proof. reflexivity. Qed.
 Example three_roots :
   run_main (Some cfg_ok) false [r_bad; r_missing; r_good] =
@@ -106,3 +106,12 @@ Example monitor_failure_premise : existsb is_failure (fst (run_root cfg_ok false
 Proof. vm_compute. reflexivity. Qed.
 Example monitor_rejects : accepts [Parsed 1; ResolveErr; Formatted 1; Emitted 1] = false /\ accepts [Parsed 1; Emitted 1] = false.
 Proof. split; reflexivity. Qed.
+
+(* fatal lexer error: in the root the process ends with 101; premise of exit_one_on_failure otherwise *)
+Example lex_fatal_root : run_main (Some cfg_ok) false [MkRoot true false UseSession (leaf 3 PLexFatal); r_good] = ([[ParseRootErr]], 101).
+Proof. vm_compute. reflexivity. Qed.
+Example lex_fatal_child :
+  run_root cfg_ok false (Node (MkInfo 5 POk false false false ok_res) [leaf 2 PLexFatal]) = ([Parsed 5; ResolveErr], operational_flag).
+Proof. vm_compute. reflexivity. Qed.
+Example bad_does_not_unwind : unwinds cfg_ok crate_bad = false.
+Proof. reflexivity. Qed.
